@@ -13,7 +13,7 @@ CHECKS = {
     "C02": ("exploration", "DESIGN.md 5/C02",
             "reference-model monitor over generated set/del histories with close/reopen cycles",
             "Generated set/delete histories spanning 1..250 data files are interrupted by close/reopen cycles (1-4 in a row, configuration redrawn each time); after every reopen every key is read back and compared with the map model. Held on the histories generated.",
-            "Close = dropping the owning object. No crash (C03) and no merge (C05) in these histories. An eighth of the episodes run on a file system that returns short counts, another eighth contain sets/deletes with one injected failing call (the key may then be in either state until written again)."),
+            "Close = dropping the owning object. No crash (C03) and no merge (C05) in these histories. An eighth of the episodes change the local time zone at every reopen; an eighth run on a file system that returns short counts, another eighth contain sets/deletes with one injected failing call (the key may then be in either state until written again)."),
     "C05": ("exploration", "DESIGN.md 5/C05",
             "reference-model monitor around merge passes and reopen cycles, thresholds drawn to vary the selected subset",
             "Every key is read before a merge, right after it and after each of 1-3 following reopen cycles, for merges at random positions and thresholds from 8 families (all, none, fragmentation, dead bytes, small file, mixed, defaults), and compared with the map model. Held on the histories generated; the selected subsets seen are listed in the evidence.",
@@ -21,7 +21,7 @@ CHECKS = {
     "C12": ("exploration", "DESIGN.md 5/C12",
             "differential monitor: recovery of the same closed directory with and without its hint files",
             "At quiescent points after merges the closed directory is copied twice (as is / all *.hint removed), both copies are opened by the real code and every key must read the same in both. Held on the directory pairs generated; only pairs whose hint files were non-empty count as non-trivial.",
-            "Only agreement between the two recoveries is judged (agreement with the model is C02/C05)."),
+            "Only agreement between the two recoveries is judged (agreement with the model is C02/C05); an open that fails on one side only is a difference. Some episodes contain merges with one failing hint-file call, keys up to 1 MiB, or a foreign empty hint file."),
     "C13": ("exploration", "DESIGN.md 5/C13",
             "size and content monitor around every merge: file sizes, independent record scan, reference store",
             "Total data-file size is measured around every merge (never grows); for all-eligible merges it must equal the sum of live record sizes, equal a reference store built by the real code from the live pairs, hold each live key exactly once per an independent scan, and be unchanged by a repeated merge. Held on the merges generated.",
@@ -65,7 +65,7 @@ CHECKS = {
     "C10": ("exploration", "DESIGN.md 5/C10",
             "containment monitor: hostile streams of 14 classes on some connections while model-checked control connections run; process liveness, fresh-connection probe and store dump",
             "1-4 hostile connections (garbage, malformed and mistyped commands, truncation, nesting to 10^6, absurd lengths, handler panics) run concurrently with control connections whose every reply is checked byte for byte; afterwards the server process must be alive, a fresh connection served, and the dumped store equal the model changed only by well-formed SET/DEL.",
-            "Memory exhaustion by gigabyte streams is not attempted. The handler-panic attack uses a storage wrapper around the real handle (serve.rs). Every eighth scenario also resets peers while they wait in the listen backlog."),
+            "Memory exhaustion by gigabyte streams is not attempted. The handler-panic attack uses a storage wrapper around the real handle (serve.rs). Every eighth scenario also resets peers while they wait in the listen backlog and puts the server through two short descriptor shortages."),
     "C11": ("exploration", "DESIGN.md 5/C11",
             "recorded client-side histories over real TCP connections checked by the per-key Wing-Gong linearizability search; timer-driven merges and shim delays inside the server",
             "2-12 client connections issue SET/GET/DEL on shared keys against a child process running the real Server whose store merges on a 5-20 ms timer; every (key, segment) history, with stamps taken at the client around send/receive, is checked for linearizability (real-time order subsumes per-connection order). Held on the interleavings produced.",
@@ -73,7 +73,7 @@ CHECKS = {
     "C15": ("exploration", "DESIGN.md 5/C15",
             "behavioural monitor on client sockets: who gets replies while N connections are provably open; full-capacity probe after batches of connections ended in six ways",
             "Against the real Server with max_connections=N: an (N+1)-th client must not be answered while N others are open and answering, must be answered after one closes; 3N simultaneous clients are served at most N at a time; after batches of connections ended by clean close, close mid-frame, malformed command, handler-task panic, blocking-thread panic and reset, N fresh connections must all be served at once.",
-            "Negative observation (no reply in 500 ms) is never a verdict on its own. Handler panics come from a storage wrapper around the real handle. Accept failures come from a 30-90 ms descriptor shortage made inside the server child (RLIMIT_NOFILE lowered, holes filled)."),
+            "Negative observation (no reply in 500 ms) is never a verdict on its own. Handler panics come from a storage wrapper around the real handle. Accept failures come from a 30-90 ms descriptor shortage made inside the server child (RLIMIT_NOFILE lowered, holes filled); another ending resets peers while they wait in the listen backlog."),
     "C16": ("exploration", "DESIGN.md 5/C16",
             "shutdown monitor: time to return of Server::run, byte streams of clients in drawn states parsed by the reference decoder, store dump vs acknowledged commands; real svr binary under SIGINT",
             "The shutdown future is completed at seeded moments while clients are idle, mid-frame, streaming commands (server writes delayed by the shim) or reading a large reply; run() must return within 15 s plus injected delays, every client stream must be whole correct replies then EOF/reset, and the store must hold every acknowledged command plus a prefix of the unacknowledged ones. Every 8th case uses the real svr binary with SIGINT and reopens the directory.",
@@ -81,11 +81,11 @@ CHECKS = {
     "C17": ("exploration", "DESIGN.md 5/C17",
             "lifecycle monitor: results of handle calls after drop, shim log by thread id, /proc thread and descriptor accounting, immediate reopen against the model",
             "Thousands of open/use/drop cycles with the merge timer far away, with merges running (delayed by the shim so drops land inside them) and with interval sync: every call through a kept handle must fail with 'closed' and cause no directory-changing call, the drop must return and the worker thread be gone promptly, the directory must open again at once with the model's contents, and threads and store descriptors must not accumulate.",
-            "Thread and descriptor accounting via /proc/self. 5 s promptness bound is wall clock with slack. In a quarter of the quiet cycles the last operation before the drop has one injected failing call."),
+            "Thread and descriptor accounting via /proc/self. 5 s promptness bound is wall clock with slack. In a quarter of the quiet cycles the last operation before the drop has one injected failing call; one drop in six happens while the owning thread unwinds from a panic."),
     "C18": ("exploration", "DESIGN.md 5/C18",
             "timed observation of the shim's call log on an idle store: merge events and fsyncs vs policy, triggers (incl. equality boundary), interval and jitter",
             "Nine scenario kinds (never; always with nothing dead / dead bytes equal / fragmentation equal; dead bytes crossed; fragmentation crossed; window containing / excluding the current hour; interval sync) with intervals 150-400 ms and jitter 0/0.3/1.0: merges must not run where forbidden within 10 intervals and must run within interval*(1+jitter)+3 s where a trigger was crossed; fsync gaps on an idle open store stay below 2*interval+1.5 s and stop at close.",
-            "Wall-clock bounds with stated slack; a timer off by less than the slack passes. Three quarters of the workers run in a local time zone other than UTC (TZ set per worker process)."),
+            "Wall-clock bounds with stated slack; a timer off by less than the slack passes. Three quarters of the workers run in a local time zone other than UTC (TZ set per worker process). In half of the crossed-trigger and interval-sync scenarios the first background pass / first periodic fsync fails (injected), and the task has to carry on."),
 }
 
 NOT_YET = {
